@@ -19,7 +19,7 @@ func init() {
 	fw.Register(&fw.Property{
 		ID:    "C05",
 		Level: "fault_enumeration",
-		Rule: "mode (a) prefix replay, EXHAUSTIVE per history: a history of 6-20 local writes, replications (1-2 remote writers, forks) and local writes held at write.after-append while a remote batch is merged and persisted runs on a peer whose kubo repo datastore (all block writes), cache datastores and keystore datastore are recording decorators; acknowledgements (write call returned; EventReplicated received) are stamped with the effect index. Then for EVERY prefix k of the effect log after database creation a fresh, isolated peer with the same libp2p key is built whose stores hold exactly effects[0:k], opens the database and calls Load(-1). mode (b): clean close/reopen cycles on real on-disk leveldb directories (3 peers, one of them holding only replicated entries), state before each stop compared with state after reopen+Load; a second short-lived handle on the same database is opened and closed now and then (writes refused afterwards are not owed, acknowledged ones are). mode (c) self-kill: a grandchild process with a leveldb-backed blockstore, the real cacheleveldown cache and leveldb keystore on disk sends itself SIGKILL right after the N-th persistence effect returned (N from the PRNG, 3 kills in a row on one directory); acknowledgements are fsync'ed to a side file before the next step; the directory is then recovered in-process. " +
+		Rule: "mode (d) write before load: 1-4 writes, then one or two process lives in which the reopened database is written to 1-2 times before (or without) Load, a last restart and Load(-1): every acknowledged write is in the recovered log, which is closed under ancestry, and the peer can still write (9 cases quick / 45 thorough, all store types). mode (a) prefix replay, EXHAUSTIVE per history: a history of 6-20 local writes, replications (1-2 remote writers, forks) and local writes held at write.after-append while a remote batch is merged and persisted runs on a peer whose kubo repo datastore (all block writes), cache datastores and keystore datastore are recording decorators; acknowledgements (write call returned; EventReplicated received) are stamped with the effect index. Then for EVERY prefix k of the effect log after database creation a fresh, isolated peer with the same libp2p key is built whose stores hold exactly effects[0:k], opens the database and calls Load(-1). mode (b): clean close/reopen cycles on real on-disk leveldb directories (3 peers, one of them holding only replicated entries), state before each stop compared with state after reopen+Load; a second short-lived handle on the same database is opened and closed now and then (writes refused afterwards are not owed, acknowledged ones are). mode (c) self-kill: a grandchild process with a leveldb-backed blockstore, the real cacheleveldown cache and leveldb keystore on disk sends itself SIGKILL right after the N-th persistence effect returned (N from the PRNG, 3 kills in a row on one directory); acknowledgements are fsync'ed to a side file before the next step; the directory is then recovered in-process. " +
 			"distinct = (history, crash index) resp. (history, restart index); non-trivial = the prefix lies after at least one acknowledgement (something must be recovered) resp. the restarted replica held >= 1 entry",
 		Assumptions: []string{"each effect is durable once its call returns (no fsync / power-loss model)", "sequential writers on the crashing peer (concurrent writers are C17)", "after every reopen Load(-1) is called before anything is written (assumption stated by the properties)"},
 		Cases:       c05Cases,
@@ -56,10 +56,14 @@ func c05Cases(tier string, seed int64) []fw.Case {
 		out = append(out, fw.Case{Idx: idx, Seed: rng.Int63(), Kind: "kill", P: map[string]interface{}{"type": storeTypes[i%3], "rounds": 3}})
 		idx++
 	}
+	out = append(out, c05WblCases(tier, seed, idx)...)
 	return out
 }
 
 func c05Run(c fw.Case) fw.Verdict {
+	if c.Kind == "write-before-load" {
+		return c05WblRun(c)
+	}
 	if c.Kind == "cycles" {
 		return c05Cycles(c)
 	}
